@@ -76,7 +76,10 @@ def join_values_w_shifts(values, shifts, jtype='add'):
     shifted_values: array_like [2D shape(len(values), len(shift))]
 
     """
-    a0 = np.pad(values, (0, np.max(shifts)), mode='constant', constant_values=0)  # 1d
+    # same zero padding as put_array_in_2d_array so that negative (advancing) shifts line up with the original
+    end_extras = np.max([np.max(shifts), 0])
+    start_extras = - np.min([np.min(shifts), 0])
+    a0 = np.pad(values, (start_extras, end_extras), mode='constant', constant_values=0)  # 1d
     a1 = put_array_in_2d_array(values, shifts)
     if jtype == 'add':
         return a1 + a0
